@@ -92,10 +92,11 @@ pub struct TreeCfg { pub ops: usize, pub remaps: usize, pub tame: bool, pub hash
 
 pub fn gen_affine(r: &mut Rng) -> Affine3<f32> {
     let mut m = Matrix4::<f32>::identity();
-    match r.below(4) {
+    match r.below(5) {
         0 => for i in 0..3 { m[(i, 3)] = gen_tame(r); },
         1 => for i in 0..3 { m[(i, i)] = *r.pick(&[2.0f32, -1.0, 0.5, 3.0, 1.0]); m[(i, 3)] = gen_tame(r); },
         2 => { let a = gen_tame(r); let (s, c) = a.sin_cos(); m[(0, 0)] = c; m[(0, 1)] = -s; m[(1, 0)] = s; m[(1, 1)] = c; m[(2, 3)] = gen_tame(r); }
+        3 => { for i in 0..3 { for j in 0..4 { if i != j { m[(i, j)] = if r.chance(0.5) { gen_tame(r) } else { 0.0 }; } } } }   // shear + translation, unit diagonal
         _ => for i in 0..3 { for j in 0..4 { m[(i, j)] = gen_tame(r); } },
     }
     Affine3::from_matrix_unchecked(m)
